@@ -24,6 +24,8 @@ import lib_builtins as L
 PROP = "C13"
 ALL_GROUPS = ["num", "pred", "ctor", "dict", "list", "set", "bytearray", "str", "ucs4"]
 NO_EXC_SHAPES = {"bool", "isinstance", "str"}      # shapes whose reference never raises on the modelled domain
+KEYED_SHAPES = {"d_pop1", "l_pop1", "d_getitem", "s_remove"}      # failing lookups raise KeyError(key): the key is compared
+KEY_CLASSES = {"none", "tuple", "exc", "plain"}
 
 
 def argclass(v, scaled):
@@ -36,6 +38,8 @@ def argclass(v, scaled):
         return "float"
     if tag == "types":
         return "type"
+    if tag == "exc":
+        return "exc_" + p[0] + ("_" + sub if sub else "")
     return tag + ("_" + sub if sub else "")
 
 
@@ -50,12 +54,19 @@ def norm_value(v):
         return [tag, sub, [norm_value(x) for x in p]]
     if tag == "dict":
         return [tag, sub, [[norm_value(k), norm_value(x)] for k, x in p]]
+    if tag == "exc":
+        return [tag, sub, [p[0], norm_value(p[1])]]
     return [tag, sub, p]
 
 
 def expected_obs(case, mut, w):
     o = case["o"]
-    out = ["v", L.canon_of_spec(case["ov"], w)] if o[0] == "v" else ["e", o[1]]
+    if o[0] == "v":
+        out = ["v", L.canon_of_spec(case["ov"], w)]
+    elif case["eargs"] is not None:      # the exception carries data of the call (KeyError(key)): part of the observation
+        out = ["e", o[1], [L.canon_of_spec(x, w) for x in case["eargs"]]]
+    else:
+        out = ["e", o[1]]
     post = None
     if mut:
         post = "ANY" if case["post"][0] == "any" else L.canon_of_spec(case["post"], w)
@@ -65,15 +76,28 @@ def expected_obs(case, mut, w):
 def obs_class(want, got):
     if not isinstance(got, list):
         return "crash" if isinstance(got, str) and (got.startswith("CRASH") or got == "TIMEOUT") else "driver:" + str(got)[:40]
-    if got[0] != want[0]:
+    if not same_outcome(want[0], got[0]):
         if got[0][0] == "e":
+            if want[0][0] == "e" and got[0][1] == want[0][1]:
+                return "exception-args"
             return "exception:" + got[0][1]
         return "value-for-exception" if want[0][0] == "e" else "wrong-value"
     return "wrong-post"
 
 
+def same_outcome(w, g):
+    """exceptions: the type always, the arguments where the spec models them (the child always reports them)"""
+    if not isinstance(g, list) or not g:
+        return False
+    if w[0] == "e":
+        if g[0] != "e" or len(g) < 2 or g[1] != w[1]:
+            return False
+        return len(w) < 3 or (len(g) >= 3 and g[2] == w[2])
+    return g == w
+
+
 def same(want, got):
-    if not isinstance(got, list) or got[0] != want[0]:
+    if not isinstance(got, list) or len(got) != 2 or not same_outcome(want[0], got[0]):
         return False
     return want[1] == "ANY" or got[1] == want[1]
 
@@ -94,7 +118,8 @@ def tlc_cases(tier, cov):
             core.die("TLC failed (%s): %s" % (r.violation or r.rc, r.cmd))
         cov["tlc"].append(dict(r.summary(), config=cfg, violation=r.violation))
         for rec in r.printed:
-            cases.append({"shape": rec["shape"], "args": [norm_value(a) for a in rec["args"]], "o": rec["o"],
+            cases.append({"shape": rec["shape"], "args": [norm_value(a) for a in rec["args"]], "o": rec["o"], "kc": rec.get("kc", ""),
+                          "eargs": [norm_value(x) for x in rec["o"][2][1]] if rec["o"][0] == "e" and rec["o"][2][0] == "args" else None,
                           "ov": norm_value(rec["o"][1]) if rec["o"][0] == "v" else None,
                           "post": norm_value(rec["post"]) if rec["post"][0] != "any" else ["any", "", 0]})
     return cases
@@ -176,7 +201,8 @@ def descriptor(case, sh, vtag, lits, w):
          "big2": ",".join(p for p, a in zip(sh.params, args) if a[0] == "big" and abs(a[2]) == 2),
          "none_args": ",".join(p for p, a in zip(sh.params[1:], args[1:]) if a[0] == "None"),
          "float_args": ",".join(p for p, a in zip(sh.params, args) if a[0] in ("float", "fnan", "finf", "fnz")),
-         "int_min": any(argclass(a, sh.scaled) == "int_min" for a in args)}
+         "int_min": any(argclass(a, sh.scaled) == "int_min" for a in args),
+         "key_class": case["kc"]}
     if w:
         d["width"] = w
     return d
@@ -216,6 +242,18 @@ def run(tier, seed):
     for s, ks in per_shape.items():
         if "v" not in ks or (len(ks) < 2 and s not in NO_EXC_SHAPES):
             core.die("vacuity: shape %s has outcome classes %s only" % (s, sorted(ks)))
+    # exceptions that carry the key: every such shape must be exercised with all classes of keys that the C-level raise
+    # treats differently (None, tuples, instances of the exception class, anything else)
+    keyed = collections.defaultdict(collections.Counter)
+    for c in cases:
+        if c["kc"]:
+            keyed[c["shape"]][c["kc"]] += 1
+    if set(keyed) != KEYED_SHAPES:
+        core.die("vacuity: shapes with KeyError(key) outcomes are %s, expected %s" % (sorted(keyed), sorted(KEYED_SHAPES)))
+    for s, kcs in keyed.items():
+        if set(kcs) != KEY_CLASSES:
+            core.die("vacuity: shape %s raises KeyError(key) for the key classes %s only" % (s, sorted(kcs)))
+    cov["keyed_exception_cases"] = {s: dict(sorted(k.items())) for s, k in sorted(keyed.items())}
 
     only = os.environ.get("C13_ONLY")        # development aid: restrict the replay (not the model) to some shape groups
     if only:
@@ -330,19 +368,23 @@ def run(tier, seed):
         else:
             rep.disagree(desc, obs_class(want, got), {"function": funcs[fn], "args": argsrc, "want": want, "got": got, "cpython": p})
     # ---- binding demonstration: corrupted expectations must be rejected
-    corrupted = rejected_n = 0
-    for k in core.sample(agree_idx, 200, rng):
+    corrupted = rejected_n = keyed_corrupted = 0
+    keyed_idx = [k for k in agree_idx if cases[plan[k][0]]["kc"]]
+    for k in core.sample(keyed_idx, 40, rng) + core.sample(agree_idx, 200, rng):
         ci, fn, pn, argsrc, w, vtag, lits = plan[k]
         want = expected_obs(cases[ci], L.SHAPE[cases[ci]["shape"]].mut, w)
         bad = json.loads(json.dumps(want))
-        if bad[0][0] == "e":
+        if bad[0][0] == "e" and len(bad[0]) > 2 and corrupted % 2:
+            bad[0][2] = [] if bad[0][2] else [["None"]]          # KeyError(key) -> KeyError() / KeyError(None)
+            keyed_corrupted += 1
+        elif bad[0][0] == "e":
             bad[0][1] = "KeyError" if bad[0][1] != "KeyError" else "TypeError"
         else:
             bad[0] = ["v", ["int", "12345"]] if bad[0][1] != ["int", "12345"] else ["v", ["None"]]
         corrupted += 1
         if not same(bad, obsC[k]):
             rejected_n += 1
-    if corrupted < 50 or rejected_n != corrupted:
+    if corrupted < 50 or rejected_n != corrupted or (keyed_idx and not keyed_corrupted):
         core.die("binding self-test failed: %d corrupted expectations, %d rejected" % (corrupted, rejected_n))
     if not samples and agree_idx:
         k = agree_idx[0]
@@ -358,9 +400,10 @@ def run(tier, seed):
         "functions_built": len(where), "functions_rejected_by_compilers": len(rejected),
         "functions_without_generic_lookup": nspec, "functions_inspected": len(spec_count),
         "cpython_evaluations": len(pcalls),
-        "binding_selftest": {"corrupted": corrupted, "rejected": rejected_n},
+        "binding_selftest": {"corrupted": corrupted, "rejected": rejected_n, "exception_args_corrupted": keyed_corrupted},
         "rule": "every case published by TLC x every variant of its shape admitting the arguments (scaled shapes: realisations "
-                "for 32/64-bit types); compared: result value incl. exact type, exception type, receiver after the call; "
+                "for 32/64-bit types); compared: result value incl. exact type, exception type, exception arguments where they are data of the call "
+                "(KeyError(key) of failing lookups), receiver after the call; "
                 "non-trivial = distinct (function, arguments) that agree and are not a plain call on a None receiver returning a value",
         "samples": samples[:5],
     })
